@@ -201,8 +201,22 @@ fn judge(c: &Cfg, faults: &[(u64, FaultKind)], r: &Run, p: &mut Partial, tag: &s
         } else {
             f64_of(&r.res.draws[d - 1].stats, "logp")
         };
-        let start_is_dropped = start_logp.map(|l| l < -5e5).unwrap_or(false);
-        let traj_faults: Vec<(u64, FaultKind)> = traj_faults.into_iter().filter(|(_, f)| !(start_is_dropped && *f == FaultKind::HugeDrop)).collect();
+        // by how much the start state's log-density (as the sampler knows it) lies below the truth
+        let start_drop = {
+            let mut g = vec![0.0; prev_pos.len()];
+            let truth = target().logp(&prev_pos, &mut g);
+            start_logp.map(|l| (truth - l).max(0.0)).unwrap_or(0.0)
+        };
+        let drop_of = |f: FaultKind| match f {
+            FaultKind::HugeDrop => Some(1e6),
+            FaultKind::Drop1500 => Some(1500.0),
+            FaultKind::Drop600 => Some(600.0),
+            _ => None,
+        };
+        // a lowered log-density is a fault of the trajectory exactly when the energy error it
+        // causes relative to the trajectory's start exceeds max_energy_error (1000 in every
+        // configuration here; 100 of slack for the energy error of the integration itself)
+        let traj_faults: Vec<(u64, FaultKind)> = traj_faults.into_iter().filter(|(_, f)| drop_of(*f).map(|d| d - start_drop > 1100.0).unwrap_or(true)).collect();
         if !traj_faults.is_empty() {
             let must_diverge = c.preset.is_nuts() || !c.dynamic;
             if must_diverge && !(dr.diverging && stat_div) {
@@ -228,7 +242,8 @@ fn judge(c: &Cfg, faults: &[(u64, FaultKind)], r: &Run, p: &mut Partial, tag: &s
         let mut from_faulty_eval = false;
         for e in &range[..n_traj] {
             if mc_core::slice_bits_eq(&dr.pos, &e.1) {
-                let faulty = r.fired.contains(&e.0);
+                // (a state whose log-density is merely 600 lower is a valid state for the sampler)
+                let faulty = r.fired.contains(&e.0) && kind_at(e.0) != Some(FaultKind::Drop600);
                 if !faulty {
                     known = true;
                 } else {
@@ -353,6 +368,12 @@ pub fn run_check(tier: Tier, _replay: Option<String>) -> i32 {
         for k in 0..e {
             for f in FaultKind::ALL {
                 jobs.push((ci, vec![(k, f)], format!("k{k}-{}", f.name())));
+            }
+            // an energy error that builds up over two steps, each below the limit relative to the
+            // step before it
+            if c.preset.is_nuts() && k + 1 < e {
+                jobs.push((ci, vec![(k, FaultKind::Drop600), (k + 1, FaultKind::Drop1500)], format!("k{k}-drop_600+k{}-drop_1500", k + 1)));
+                jobs.push((ci, vec![(k, FaultKind::Drop1500)], format!("k{k}-drop_1500")));
             }
             for j in 1..=window {
                 if k + j >= e {
